@@ -128,6 +128,9 @@ pub const NAMES: &[&str] = &[
     "BALLAST.BIN", // 20
     "LFNSPELL",    // 21
     "FILE0001.TXT",// 22
+    "FIRST.DAT",   // 23
+    "LAST.DAT",    // 24
+    "IN.DAT",      // 25
 ];
 
 #[derive(Clone, Copy, Debug, PartialEq, Eq, Hash, PartialOrd, Ord)]
